@@ -14,6 +14,11 @@ Case kinds (field "k"):
   hist  a HISTORY of loader calls on one data set in one process: {"ds"| "gen", "calls": [[split, return_X_y, mutation|None], ...]}
         (oracle only; the model's loader is a pure function, so it has no history to compare)
 
+  count the number of cases (and the series lengths) a bundled loader returns against an INDEPENDENT count of the data lines of the
+        file (non-blank lines after @data; values = commas + 1 in the first dimension): {"ds"} (oracle only)
+  "nomodel": true on an rt / fmt case = too large for the interpreted driver in this tier: oracle only (instances, order, values
+        against the panel that was written / rendered); the theorems have no size parameter
+
 Strings travel percent-encoded (same convention as lean/SkVerif/Drv/C18.lean).
 Result of a loader:  ok!<ndims>!<N | L labels>!<dims '|' instances ';' values ','>  or  E:<kind>.
 """
@@ -64,6 +69,9 @@ RULE = ("rt: row index of the written panel (default, permuted, reversed, offset
         "small panels (quick: seed-rotated slice, thorough: all) + random panels over magnitudes 1e-8..1e12, mixed magnitudes, ints, "
         "1..12 instances, length 1..60 + off-domain options (univariate=False, timestamp=True, mismatching label counts). "
         "files: every bundled dataset in every format (quick: small ones + seed-rotated large), harness-rendered three-format data sets, "
+        "SIZE: large panels through the real writer/loader (files > 1 MiB and > 4 MiB, two in quick, more in thorough) and a large multi-dimensional "
+        "file through the .ts/.arff parsers, checked against what was written (oracle only where the driver would be slow); the number of cases "
+        "and series lengths of EVERY bundled problem against an independent count of the file's data lines in every run; "
         "every bundled problem through its loader in thorough and the 12-dimensional one (JapaneseVowels) in quick too, split=None compared with "
         "train+test by position AND by column name/order; generated TRAIN/TEST pairs with 1..13 dimensions through _load_dataset, loader call HISTORIES (all ordered pairs of the six split x form calls on the "
         "small set, random sequences of 2-8 calls with user mutations of returned objects on bundled and generated sets; oracle only), "
@@ -211,7 +219,7 @@ def compare(real, model):
         if k not in a:
             return False
     for k, v in a.items():
-        if k in ("forms", "idx", "cols"):        # observed on the real side only (oracle)
+        if k in ("forms", "idx", "cols", "sz"):        # observed on the real side only (oracle)
             continue
         if k not in b:
             return False
@@ -355,9 +363,9 @@ def _rt_obs(c):
 def _rt(c):
     err, text, p = _rt_obs(c)
     if err is not None:
-        return "w=%s p=- pr=-" % err
+        return "w=%s p=- pr=- sz=0" % err
     # w (the exact text) is reported but not compared: the property speaks about what is loaded back
-    return "w=%s p=%s pr=%s" % (enc(text), p, p)
+    return "w=%s p=%s pr=%s sz=%d" % ("large" if c.get("nomodel") else enc(text), p, p, len(text))
 
 
 def _render_ts(g, name="gen"):
@@ -652,6 +660,71 @@ def _hist_oracle(c, out):
     return fails
 
 
+
+# ----------------------------------------------------------------------------- cases in the file vs cases loaded
+def _file_cases(path):
+    """independent of any parser: (number of data lines, number of values in the first dimension of each)"""
+    lens, started = [], False
+    with open(path, "r", encoding="utf-8") as f:
+        for line in f:
+            t = line.strip()
+            if not started:
+                started = t.lower() == "@data"
+                continue
+            if t:
+                first = t.split(":")[0].strip()
+                lens.append(first.count(",") + 1 if first else 0)
+    return lens
+
+
+def _count(c):
+    base = _fresh_modules()
+    ds = c["ds"]
+    if ds in LOADERS:
+        f = getattr(base, LOADERS[ds])
+        call = lambda split: f(split=split, return_X_y=True)
+    else:
+        call = lambda split: base.load_UCR_UEA_dataset(ds, split=split, return_X_y=True)
+    parts = []
+    for split in ("train", "test"):
+        want = _file_cases(os.path.join(_data_dir(), ds, "%s_%s.ts" % (ds, split.upper())))
+        try:
+            X, y = call(split)
+            got = [len(X.iloc[i, 0]) for i in range(len(X))]
+            ny = len(y)
+        except Exception as e:
+            parts.append("%s=%s" % (split, canon_err(e)))
+            continue
+        parts.append("%s=%d/%d/%s/%d/%s" % (split, len(got), ny, _digest([str(v) for v in got]), len(want), _digest([str(v) for v in want])))
+    try:
+        X, y = call(None)
+        parts.append("none=%d/%d" % (len(X), len(y)))
+    except Exception as e:
+        parts.append("none=" + canon_err(e))
+    return " ".join(parts)
+
+
+def _count_oracle(c, out):
+    d = _kv(out)
+    fails, tot = [], 0
+    for split in ("train", "test"):
+        v = d.get(split, "E:missing")
+        if v.startswith("E:"):
+            return [("loader-count:%s-rejected" % split, "split=%s of %s does not load: %s" % (split, c["ds"], v))]
+        n, ny, dg, nf, df = v.split("/")
+        tot += int(nf)
+        if int(n) != int(nf) or int(ny) != int(nf):
+            fails.append(("loader-count:cases", "%s %s: the file has %s data lines, the loader returns %s instances and %s labels" % (c["ds"], split, nf, n, ny)))
+        elif dg != df:
+            fails.append(("loader-count:series-lengths", "%s %s: series lengths loaded differ from the number of values on the data lines" % (c["ds"], split)))
+    v = d.get("none", "E:missing")
+    if v.startswith("E:"):
+        fails.append(("loader-count:none-rejected", "split=None of %s does not load: %s" % (c["ds"], v)))
+    elif not fails and [int(x) for x in v.split("/")] != [tot, tot]:
+        fails.append(("loader-count:cases", "%s split=None: the two files have %d data lines, the loader returns %s instances/labels" % (c["ds"], tot, v)))
+    return fails
+
+
 def run_real(c):
     k = c["k"]
     if k == "rt":
@@ -673,6 +746,8 @@ def run_real(c):
         return _load(c)
     if k == "hist":
         return _hist(c)
+    if k == "count":
+        return _count(c)
     raise ValueError(k)
 
 
@@ -682,6 +757,8 @@ _TS_TRUE = re.compile(r"(?im)^\s*@timestamps\s+true\s*$")
 
 def to_line(c):
     k = c["k"]
+    if c.get("nomodel") or k == "count":
+        return None
     if k == "rt":
         if c["ts"]:
             return None     # @timeStamps true: the loader takes the timestamp branch (not modelled)
@@ -715,6 +792,11 @@ def to_line(c):
 def _decimals(tok):
     """unit of the last printed place of a decimal token, as a power of ten exponent (e.g. '1.50' -> -2)"""
     t = tok.strip().lower()
+    if "e" not in t:                      # fast path: plain fixed notation
+        u = t.lstrip("+-")
+        a, dot, b = u.partition(".")
+        if (a + b).isdigit():
+            return -len(b)
     m = re.fullmatch(r"[+-]?(\d*)(?:\.(\d*))?(?:e([+-]?\d+))?", t)
     if not m or (not m.group(1) and not m.group(2)):
         return None
@@ -754,6 +836,8 @@ def oracle(c, out):
     fails = []
     if k == "hist":
         return _hist_oracle(c, out)
+    if k == "count":
+        return _count_oracle(c, out)
     if k == "rt":
         if not in_domain(c):
             return fails
@@ -866,8 +950,11 @@ def _panels_agree(a, b, exact):
         return "number of dimensions %d vs %d" % (a[0], b[0])
     la = [_canon_label(x) for x in (a[1] or [])]
     lb = [_canon_label(x) for x in (b[1] or [])]
+    if len(la) != len(lb):
+        return "%d vs %d labelled instances" % (len(la), len(lb))
     if la != lb:
-        return "labels differ: %r vs %r" % (la[:8], lb[:8])
+        k_ = next(i for i, (x, y) in enumerate(zip(la, lb)) if x != y)
+        return "labels differ from instance %d on: %r vs %r" % (k_, la[k_:k_ + 8], lb[k_:k_ + 8])
     for di, (da, db) in enumerate(zip(a[2], b[2])):
         if len(da) != len(db):
             return "dim %d: %d vs %d instances" % (di, len(da), len(db))
@@ -904,6 +991,8 @@ def _canon_label(x):
 
 def nontrivial(c, out):
     k = c["k"]
+    if k == "count":
+        return "E:" not in out
     if k == "hist":
         return "calls=" in out and "!E:" not in out
     if k == "rt":
@@ -920,6 +1009,15 @@ def nontrivial(c, out):
 def features(c, out):
     k = c["k"]
     f = ["kind=" + k]
+    if c.get("nomodel"):
+        f.append("oracle-only=" + k)
+    if k == "count":
+        f.append("count-src=" + c["ds"])
+        return f
+    if k == "rt" and len(c["X"]) >= 100:
+        d_ = _kv(out)
+        sz_ = int(d_.get("sz", "0"))
+        f.append("large-panel-file=%s" % ("E" if d_["w"].startswith("E:") else ">4MiB" if sz_ > (4 << 20) else ">1MiB" if sz_ > (1 << 20) else "<1MiB"))
     if k == "hist":
         f.append("hist-src=" + (c["ds"] if "ds" in c else "generated"))
         f.append("hist-len=%d" % len(c["calls"]))
@@ -1292,7 +1390,10 @@ def gen_cases(tier, rng):
         load_sets = ["UnitTest", "ItalyPowerDemand", "JapaneseVowels", rng.choice(["GunPoint", "ArrowHead", "BasicMotions"])]
         fmt_sets = [rng.choice(FMT_SETS[:2]), "BasicMotions"] if rng.random() < 0.5 else FMT_SETS[:2]
     for ds in load_sets:
-        cases.append({"k": "load", "ds": ds})
+        c = {"k": "load", "ds": ds}
+        if not thorough and ds == "JapaneseVowels":
+            c["nomodel"] = True      # 1.3 MB of text: through the model in thorough only; the oracle runs here
+        cases.append(c)
     for ds in fmt_sets:
         cases.append({"k": "fmt", "ds": ds})
     for ds in FMT_SETS[:2]:
@@ -1305,6 +1406,29 @@ def gen_cases(tier, rng):
     for i in range(156 if thorough else 26):
         nd = 1 + i % 13          # dimension counts 1..13: the column names cross dim_9 / dim_10
         cases.append({"k": "load", "gen": {"train": _gen_set(rng, nd=nd, n=rng.randrange(1, 6)), "test": _gen_set(rng, nd=nd, n=rng.randrange(1, 6))}})
+    # ---- 5a. SIZE: a few large panels through the real writer and loader (written file > 1 MiB and > 4 MiB) and one large
+    #          multi-dimensional file through the .ts / .arff parsers; the cases and their order are checked against the
+    #          panel that was written.  Oracle only where the interpreted driver would take minutes ("nomodel").
+    def _big_panel(n, L):
+        # wide tokens (pandas pads to a common width of ~15 characters): fewer values per MiB
+        return [[round(rng.uniform(-1e6, 1e6), 6) for _ in range(L)] for _ in range(n)]
+    sizes = [(270, 270, True), (530, 530, True)] if not thorough else [(270, 270, False), (300, 600, True), (530, 530, True), (1300, 250, True)]
+    for n, L, nomodel in sizes:
+        labs = ["k%d" % (i % 11) for i in range(n)]
+        c = _rt_case(rng, _big_panel(n, L), labels=False, cl=sorted(set(labs)), vals=labs, eq=True, sl=L, name="big")
+        c["nomodel"] = nomodel
+        cases.append(c)
+    if thorough:
+        c = _rt_case(rng, _big_panel(400, 280), labels=False, name="bigfree")
+        c["nomodel"] = True
+        cases.append(c)
+    for nd, n, L in ([(3, 420, 110)] if not thorough else [(3, 420, 110), (12, 300, 130), (2, 2500, 30)]):
+        g = {"X": [[["%.5f" % rng.uniform(-100, 100) for _ in range(L)] for _ in range(n)] for _ in range(nd)],
+             "y": [rng.choice(["1", "2", "3"]) for _ in range(n)]}
+        cases.append({"k": "fmt", "gen": g, "nomodel": True})
+    # the number of cases each bundled loader returns against the data lines of its files (every bundled problem, every run)
+    for ds in BUNDLED_TS:
+        cases.append({"k": "count", "ds": ds})
     # ---- 5b. loader call HISTORIES: sequences of (split, form) calls in one process, some followed by a user
     #          mutation of the returned object; every ordered pair of the six forms on the small set first
     forms6 = [[sp, rxy] for sp in ("train", "test", None) for rxy in (True, False)]
@@ -1350,6 +1474,17 @@ def shrink(c):
         return
     X = c["X"]
     n = len(X)
+    if n > 16:
+        for lo, hi in ((0, n // 2), (n // 2, n), (0, n - 1)):
+            d = dict(c, X=X[lo:hi])
+            if c.get("vals") and len(c["vals"]) == n:
+                d["vals"] = c["vals"][lo:hi]
+            if c.get("idx") is not None:
+                d["idx"] = c["idx"][lo:hi]
+            if c.get("vidx") is not None:
+                d["vidx"] = c["vidx"][lo:hi]
+            yield d
+        return
     for i in range(n):
         if n > 1:
             d = dict(c, X=X[:i] + X[i + 1:])
